@@ -9,7 +9,7 @@ run_demo() { # prints PASS or FAIL
   if [ -f "$SRC/demo.js" ]; then
     mkdir -p "$W/stage/lib" "$W/stage/src"; cp -r "$W/wt/otp-js/src/." "$W/stage/src/"
     (cd "$W/wt" && GOOS=js GOARCH=wasm go build -o "$W/stage/lib/otp.wasm" ./wasm) || { echo BUILDFAIL; return; }
-    sed "s#/tmp/seed-$ID/stage#$W/stage#g" "$SRC/demo.js" > "$W/demo.js"
+    sed "s#/tmp/seed-$ID/stage#$W/stage#g" "$SRC/demo.js" > "$W/demo.js"; cp "$SRC"/*.json "$W/" 2>/dev/null; rm -f "$W/meta.json"
     if (cd "$W" && timeout 120 node "$W/demo.js" >/dev/null 2>&1); then echo PASS; else echo FAIL; fi
   else
     pkg=$(grep -m1 '^package ' "$SRC/demo_test.go" | awk '{print $2}')
